@@ -76,3 +76,10 @@ let cmd_pick (t : toks) (buf : Buffer.t) : unit =
   print_natopt buf (sv_pick w acts vals)
 
 let () = register "env" cmd_env; register "pick" cmd_pick
+
+(* gaps <n> <table> : exploitability | l1 | l2 squared | linf of the given table *)
+let cmd_gaps (t : toks) (buf : Buffer.t) : unit =
+  let n = next_int t in
+  let tb = read_table t (1 lsl n) in
+  List.iter (fun g -> print_qopt buf (ev_gap g (nat_of_int n) tb); add buf " ") [GExploit; GL1; GL2; GLinf]
+let () = register "gaps" cmd_gaps
